@@ -194,3 +194,12 @@ Theorem c18_code_happened_before_decides : forall tr ts, stamps vector_code tr =
   (VectorClock_happened_before a b order = true <-> hb tr i j).
 Proof. exact vector_code_happened_before. Qed.
 Print Assumptions c18_code_happened_before_decides.
+
+(** ... and for all stores at once: after every store of a duplicate-free list has
+    pulled every node's state, each of them reports increments minus decrements
+    (hence they agree). *)
+Theorem c18_store_all_converge : forall ops nodes key r, NoDup nodes -> In r nodes ->
+  st_value nodes (st_run true (ops ++ pull_round nodes nodes)) key r =
+    zsum (map (fun k => sincs key k ops) nodes) - zsum (map (fun k => sdecs key k ops) nodes).
+Proof. exact store_all_converge. Qed.
+Print Assumptions c18_store_all_converge.
